@@ -366,6 +366,15 @@ class Ctx:
             bad = z3.BoolVal(bool(bad))
         if isinstance(bad, (list, tuple)):
             bad = z3.Or([b.e if isinstance(b, SBool) else (z3.BoolVal(bool(b)) if isinstance(b, (bool, np.bool_)) else b) for b in bad]) if bad else z3.BoolVal(False)
+        if not self.reached:
+            # reachability twin: the assumptions and decisions of this path must be satisfiable, otherwise every
+            # property query on it would pass vacuously
+            r0, _ = self._check()
+            if r0 == "unsat":
+                self.stats["vacuous_paths"] = self.stats.get("vacuous_paths", 0) + 1
+                raise PathAbort("path condition unsatisfiable at the first property check")
+            if r0 == "unknown":
+                raise Unsupported("satisfiability of the path condition is unknown (vacuity guard)")
         self.reached = True
         t = time.time()
         bad_s = z3.simplify(bad)
